@@ -351,9 +351,7 @@ func probeMain(name string) {
 		b.WriteString("[" + a + "]")
 	}
 	b.WriteString("\n")
-	os.Stdout.WriteString(b.String())
-	os.Stdout.Write(in)
-	os.Stdout.Close()
+	// log first: the next stage of a pipeline sees end-of-input only after this process has logged
 	if lf := os.Getenv("VH_PROBE_LOG"); lf != "" {
 		if args == nil {
 			args = []string{}
@@ -365,6 +363,9 @@ func probeMain(name string) {
 			f.Close()
 		}
 	}
+	os.Stdout.WriteString(b.String())
+	os.Stdout.Write(in)
+	os.Stdout.Close()
 	code := 0
 	if len(args) > 0 && len(args[0]) > 1 && args[0][0] == 'x' {
 		n := 0
